@@ -38,6 +38,9 @@ SCAN_WORDS = ["assume(", "admit(", "external_body", "assume_specification", "kan
               "assume_abort", "kani::any_where"]
 
 os.environ.setdefault("CARGO_NET_OFFLINE", "true")
+import threading  # noqa: E402
+# one global budget of verifier processes (Verus runs and Kani harnesses), whatever the nesting of thread pools
+PROC_SLOTS = threading.BoundedSemaphore(int(os.environ.get("VERIF_JOBS", "14")))
 
 
 def log(*a):
@@ -238,7 +241,8 @@ def add_false_postconditions(gen, fns, extracted_fn_starts):
 def run_verus(path, cwd):
     cmd = ["verus", os.path.basename(path), "--output-json", "--time", "--multiple-errors", "30",
            "--rlimit", VERUS_RLIMIT, "--error-format=json"]
-    r = run_cmd(cmd, cwd=cwd, timeout=600)
+    with PROC_SLOTS:
+        r = run_cmd(cmd, cwd=cwd, timeout=600)
     res = {"cmd": " ".join(cmd), "wall": r["wall"], "timeout": r["timeout"], "raw_err": r["err"]}
     try:
         js = json.loads(r["out"])
@@ -531,7 +535,8 @@ def run_kani_harness(gpath, bdir, h, flags):
         cmd.append(a)
     env = dict(os.environ)
     env["RUSTFLAGS"] = "--edition 2021"
-    r = run_cmd(cmd, cwd=bdir, timeout=h.get("timeout", 300), env=env)
+    with PROC_SLOTS:
+        r = run_cmd(cmd, cwd=bdir, timeout=h.get("timeout", 300), env=env)
     p = parse_kani(r["out"])
     p.update({"cmd": " ".join(cmd), "wall": r["wall"], "timeout": r["timeout"], "rc": r["rc"],
               "tail": (r["out"][-3000:] + "\n" + r["err"][-3000:])})
@@ -590,7 +595,7 @@ def unit_kani(u, tier):
         if not re.search(r"fn\s+%s\s*\(" % re.escape(h["name"]), gen):
             raise Unsupported(f"{name}: harness {h['name']} missing from template")
     t0 = time.time()
-    workers = int(os.environ.get("VERIF_KANI_JOBS", "8"))
+    workers = int(os.environ.get("VERIF_KANI_JOBS", "16"))
     with cf.ThreadPoolExecutor(max_workers=workers) as ex:
         futs = {ex.submit(run_kani_harness, gpath, bdir, h, flags): h for h in hs}
         results = {futs[f]["name"]: f.result() for f in cf.as_completed(futs)}
@@ -721,7 +726,7 @@ def check(prop, tier):
     os.makedirs(EVID, exist_ok=True)
     vdir = os.path.join(VIOL, prop)
     os.makedirs(vdir, exist_ok=True)
-    jobs = int(os.environ.get("VERIF_UNIT_JOBS", "4"))
+    jobs = int(os.environ.get("VERIF_UNIT_JOBS", "16"))
     with cf.ThreadPoolExecutor(max_workers=jobs) as ex:
         results = list(ex.map(lambda u: run_unit(u, tier), units))
     findings = load_findings()
